@@ -120,6 +120,8 @@ def execute(program, schedule, prefix="p"):
             left = Quantity(mknum(o["a"]), U) if shape[0] == "q" else U
             if o["op"] == "**":
                 r = left ** o["n"]
+            elif o["op"] == "k/":
+                r = mknum(o["kk"]) / left
             else:
                 V = units[o["v"]]
                 right = Quantity(mknum(o["b"]), V) if shape[1] == "q" else V
